@@ -160,7 +160,7 @@ contract(
     # chunks is the decompression of the whole remaining input - however read() chunked it
     ensures=["b''.join(result) == Inflate(old(View(self)))", "self.eof", "len(View(self)) == 0"],
     raises={"error": []},
-    modifies=RMOD,
+    modifies=RMOD + ["fresh"],
     returns="list[bytes]",
     loops={
         "while not self.eof": dict(
@@ -190,7 +190,7 @@ contract(
     # the view only, hence independent of how the stream was chunked
     ensures=["result == Lines(Inflate(old(View(self))))"],
     raises={"error": [], "UnicodeDecodeError": []},
-    modifies=RMOD,
+    modifies=RMOD + ["fresh"],
     returns="list[str]",
     types={"buf": "bytes"},
     loops={
